@@ -548,11 +548,10 @@ func r03_4(c *Ctx, rule string) {
 				}
 			}
 		}
-		if s, ok := eng.ConstString(bo.Y); ok && s == "" && isFieldLoad(bo.X, "types.Stat.Linkname") {
-			k := x.KeyAtEntry(bo)
-			as[k] = bo.Op == token.NEQ
-		}
 	})
+	for k, v := range c.emptinessTests(fn, x, true, func(v ssa.Value) bool { return isFieldLoad(v, "types.Stat.Linkname") }) {
+		as[k] = v
+	}
 	// kind != delete, err == nil, type assertion ok
 	eng.Instrs(fn, func(in ssa.Instruction) {
 		switch v := in.(type) {
